@@ -26,7 +26,8 @@ def import_nfc():
     import nfc
     assert os.path.abspath(nfc.__file__).startswith(NFCPY_SRC + os.sep), \
         "nfc imported from %s, expected under %s" % (nfc.__file__, NFCPY_SRC)
-    logging.disable(logging.CRITICAL)
+    if not os.environ.get("VERIF_DEBUG_LOG"):
+        logging.disable(logging.CRITICAL)
     logging.raiseExceptions = False
     return nfc
 
